@@ -750,6 +750,26 @@ def _filter_cases(ctx):
                'wave_as': rng.choice(['image', 'image', 'wset']), 'toair': rng.random() < 0.25,
                'junk': rng.choice(['big', 'nan', 'inf']), 'descending': rng.random() < 0.3, 'negmask': rng.random() < 0.25}
         cases.append({'stream': 'filter', 'gen': gen})
+    # a spectrum that only just reaches a band: its last (first) pixels lie a few Angstrom inside one of the ten band edges, where
+    # the tabulated response is 1e-4 .. 1e-3 - the band IS overlapped, a constant c comes back as c
+    edges = []
+    for b, (lam, resp, _) in enumerate(_filter_curves()):
+        nz = np.nonzero(np.asarray(resp) > 0)[0]
+        # the band begins / ends at the tabulated zero next to the first / last positive response (linear in between)
+        edges += [(float(lam[max(nz[0] - 1, 0)]), +1), (float(lam[min(nz[-1] + 1, len(lam) - 1)]), -1)]
+    for lam_e, side in (edges if ctx.tier == 'thorough' else rng.sample(edges, 5)):
+        nx = rng.choice([300, 500])
+        step_ = 1.0e-4          # SDSS pixels: 1e-4 dex
+        inside = rng.uniform(1.5, 6.5)
+        if side > 0:      # lower edge of the band: the spectrum ENDS just inside it
+            lo = math.log10(lam_e + inside) - step_ * (nx - 1)
+        else:             # upper edge: the spectrum STARTS just inside it
+            lo = math.log10(lam_e - inside)
+        hi = lo + step_ * (nx - 1)
+        gen = {'seed': rng.randrange(2 ** 31), 'ntrace': 1, 'nx': nx, 'start': [lo], 'step': [(hi - lo) / (nx - 1)], 'curv': [0.0],
+               'flux': rng.choice(['const', 'const', 'positive']), 'const': [rng.uniform(1, 40)], 'maskfrac': 0.0, 'mask_ends': 0,
+               'wave_as': 'image', 'toair': False, 'junk': 'big', 'descending': rng.random() < 0.3, 'negmask': False, 'kind': 'band-edge'}
+        cases.append({'stream': 'filter', 'gen': gen})
     return cases
 
 
